@@ -5,13 +5,17 @@
 (* library's parser returned.  The bytes are decoded again with the         *)
 (* specification's reader machine (Expr!Dec) and the two are compared.      *)
 (*                                                                         *)
-(* event: [tid, c: <<asz, osz, le>>, b: bytes, ok: parsed without raising,  *)
+(* event: [tid, c: <<asz, osz, le, ver>>, b: bytes, ok: parsed w/o raising,  *)
 (*         ops: Seq([c: opcode, n: name, a: Seq(arg), o: offset])]          *)
 (* arg:   [k: "i" | "b" | "e" | "z", v, e]   i: v = 16 LE two's complement   *)
 (*        digits; b: v = the bytes; e: e = nested ops; z: empty block/expr  *)
 (*                                                                         *)
+(* ver is the version of the unit the expression was found in (the parser  *)
+(* was built from that unit's structs).                                     *)
+(*                                                                         *)
 (* Total verdict: an expression the spec's decoder cannot finish (opcode    *)
-(* outside the table, truncated operand: not well-formed in the sense of    *)
+(* outside the table or not settled in this context - Expr!Settled -,       *)
+(* truncated operand: not well-formed in the sense of                       *)
 (* the property) is counted as `outside`; a decodable one must have been    *)
 (* parsed (ok) with exactly Canon(Dec(bytes)); failures go to `bad`.        *)
 (***************************************************************************)
@@ -43,14 +47,14 @@ Canon(out) == IF out = <<>> THEN <<>>
                       o |-> o.off]>> \o Canon(Tail(out))
 
 TInit == /\ l = 1 /\ bad = {} /\ agree = 0 /\ outside = 0
-         /\ ctx = [asz |-> 4, osz |-> 4, le |-> TRUE, full |-> FALSE] /\ expr = <<>> /\ phase = "trace" /\ rd = Idle
+         /\ ctx = [asz |-> 4, osz |-> 4, le |-> TRUE, ver |-> 0, lvl |-> 0] /\ expr = <<>> /\ phase = "trace" /\ rd = Idle
 
 Step ==
   /\ l <= Len(Log)
   /\ l' = l + 1
   /\ UNCHANGED <<ctx, expr, phase, rd>>
   /\ LET ev == Log[l]
-         c == [asz |-> ev.c[1], osz |-> ev.c[2], le |-> ev.c[3] = 1, full |-> FALSE]
+         c == [asz |-> ev.c[1], osz |-> ev.c[2], le |-> ev.c[3] = 1, ver |-> ev.c[4], lvl |-> 0]
          d == Dec(ev.b, c)
      IN IF ~d.ok THEN outside' = outside + 1 /\ UNCHANGED <<bad, agree>>
         ELSE LET want == Canon(d.out)
